@@ -71,6 +71,8 @@ def body(run):
         thresh = rng.choice([None, 0.0, 0.25, 0.6, 1.0])
         layout = rng.choice(['tiled16', 'tiled32x16', 'strips', 'default'])
         same_names = nb >= 2 and k % 4 == 1       # statistics are per band of the file, whatever the bands are called
+        if k % 7 == 3:
+            model, thresh = 'gain-offset', 0.0        # a recorded threshold of 0 is a threshold (in-painting of negative R2 only), not "no value"
         lshape = k % 5 == 2
         if lshape:
             layout = ['tiled16', 'tiled32x16'][(k // 5) % 2]
